@@ -52,6 +52,12 @@ CHECKS = {
    note="Trusts the `semver` crate for version validity and precedence. Versions that differ only in build metadata are treated as a tie (either answer accepted).",
    technique="property-based testing: exhaustive small-scope enumeration + proptest random generation against a reference model of the semver track relation and of the name map",
    design="C15"),
+ "C16": dict(
+   category="exploration",
+   text="Each case (graph history over a generated library, API history defining base types after their dependants, grammar-generated document, repository fixture with its packages, hand-written documents with several unknown include-with names) is observed twice in one process and on a clone, and in K fresh worker processes (K=4 quick / 12 thorough, each with its own hash seeds); the SHA-256 of encode bytes in both dependency modes, serialised tree, printed text, discovered keys and rendered diagnostics must all be equal.",
+   note="A sample of per-process hash seeds, not all. The Debug rendering of the graph is not part of the observation (the statement names binaries, diagnostics and printed text).",
+   technique="property-based testing: metamorphic re-execution in fresh worker processes and on clones, hash-equality oracle (proptest generators)",
+   design="C16"),
 }
 
 def main():
